@@ -56,9 +56,19 @@ NEEDS = {
  "C19-m4": "a layout configuration whose row gap is zero",
  "C20-m3": "two goroutines drawing from one sno generator concurrently",
  "C20-m4": "two sno generators created within the same clock unit",
+ "C01-m5": "an exclusive split whose default flow is not the last outgoing entry and whose first true condition is listed after the default",
+ "C05-m5": "an inclusive fork with an empty bypass flow straight to the join and a slow trace subscriber (tracker unlocks before it saw the fork's FlowTrace)",
+ "C06-m5": "a late delivery of the event of an already withdrawn losing alternative (sequential history of >= 2 events)",
+ "C09-m5": "a subscriber unsubscribing while the tracer is blocked sending to it (buffer 0, or buffer N with N+1 pending traces)",
+ "C10-m5": "a host with only non-interrupting boundary events, answered, then a matching event",
+ "C11-m5": "two catch events registered one after the other, the first has fired, the next event matches the second",
+ "C12-m5": "the inner completion monitor of a sub-process subscribing after the inner start event's flow trace was relayed (about 3% of entries when the parent tracer is busy)",
+ "C14-m5": "a chain completing while >= 2 chains are open, then an event that forces a new chain (shortest history: a a b a b b)",
+ "C17-m5": "two condition evaluations in the same expression language overlapping in time",
+ "C18-m5": "two or more concurrent WaitUntilComplete calls of a process set released together",
 }
 BY = {  # caught by another property's quick check (run with tools/mutant_sweep.sh <seed>@<property>)
- "C01-m1": "C03", "C10-m2": "C11", "C16-m4": "C08", "C13-m4": "C11", "C02-m4": "C03",
+ "C01-m1": "C03", "C10-m2": "C11", "C16-m4": "C08", "C13-m4": "C11", "C02-m4": "C03", "C01-m5": "C04", "C06-m5": "C11",
 }
 WHY_MISSED = {
  "C04-m2": "needs 3 concurrent tokens at one gateway (scenario does not close; with the change the gateway busy-loops)",
@@ -66,6 +76,7 @@ WHY_MISSED = {
  "C13-m3": "instants outside the int64-nanosecond range are outside the model (time.Time is an int64 of nanoseconds)",
  "C14-m2": "shortest violating history has length 9; the L=9 scenarios (thorough) do not close in 30 min",
  "C15-m1": "pure encoding/xml behaviour: outside the claimed sub-claims",
+ "C12-m5": "needs the real inner completion monitor racing with the relay of a real sub-process (thorough scenario 'sub-process (start -> end inside)' does not close); the quick relay scenario stands the inner instance in",
  "C18-m2": "needs two message-instantiated processes alive at once (thorough scenario 'message flow, 2 throws' does not close in the quick budget)",
 }
 results = {}
